@@ -148,7 +148,7 @@ func ruleKIPropagate(p *Prog, r *Reporter) {
 					for _, c2 := range callsIn(f) {
 						if isCallTo(c2.Common(), "biscuit.newBiscuit") {
 							args := c2.Common().Args
-							if sliceDependsOn(args[len(args)-1], cv) {
+							if sliceMustContain(args[len(args)-1], cv, cv.Block()) && onlyNilGuards(p, cv.Block(), "b.rootKeyID") {
 								ok = true
 							}
 						}
@@ -201,7 +201,12 @@ func nilGuard(p *Prog, blk *ssa.BasicBlock, d string, wantNil bool) bool {
 		} else {
 			continue
 		}
-		if p.D(x) != d {
+		dx := p.D(x)
+		// a generated protobuf getter returns the field itself for pointer / message fields
+		if m := pbGetterRe.FindStringSubmatch(dx); m != nil && dx != d {
+			dx = m[2] + "." + m[1]
+		}
+		if dx != d {
 			continue
 		}
 		isNil := (b.Op == token.EQL) == g.val
@@ -332,24 +337,19 @@ func ruleKIFlow(p *Prog, r *Reporter) {
 	why := "the key source's error is not tested"
 	if len(tests) > 0 {
 		why = "the failure branch does not return the key source's error wrapped with %w"
+		nRet, nGood := 0, 0
 		for b := range reachableFrom(tests[0].nonNil) {
 			ret := blockReturn(b)
 			if ret == nil {
 				continue
 			}
-			ev := retVal(ret, 1)
-			if ev == ssa.Value(errV) {
-				okErr = true
-			} else if c, ok := ev.(*ssa.Call); ok && isCallTo(&c.Call, "fmt.Errorf") {
-				format, _ := constString(c.Call.Args[0])
-				if strings.Contains(format, "%w") && sliceDependsOn(c.Call.Args[1], errV) {
-					okErr = true
-				}
-			}
-			if !isNilConst(retVal(ret, 0)) {
-				okErr = false
+			nRet++
+			if wrapsWithW(retVal(ret, 1), errV) && isNilConst(retVal(ret, 0)) {
+				nGood++
 			}
 		}
+		// every failure return (not just one of them) keeps the error identifiable with errors.Is
+		okErr = nRet > 0 && nGood == nRet
 	}
 	r.Check(okErr, pos, name, "keySource error", "error returned wrapped with %w and no authorizer", why)
 	// empty key rejected
